@@ -8,7 +8,7 @@ ID = 'C17'
 LEVEL = 'other'
 EXPLANATION = ('Static rules over every Subscription impl: K1 a composite answers is_closed() conjunctively — every part that unsubscribe() '
                'tears down is asked, and true is returned only when all of them answered true; K2 append() on an already unsubscribed '
-               'composite unsubscribes the late addition instead of dropping it; K4 unsubscribe() empties the closed-means-None slot on every path (precondition of K2 and of "any remaining handle reports closed"); K3 the cells whose emptiness means "closed" are never '
+               'composite unsubscribes the late addition instead of dropping it; K4 unsubscribe() empties the closed-means-None slot on every path (precondition of K2 and of "any remaining handle reports closed"); K5 task handles: the task body runs under the handle cell, so unsubscribe()/is_closed() cannot overtake a running body (same rule as C19.H3); K3 the cells whose emptiness means "closed" are never '
                're-filled after construction and keep_running is only ever cleared (no resurrection: true never reverts to false). '
                'Decides the per-type protocol; does not decide history-level monotonicity of MultiSubscription::is_closed across appends.')
 ASSUMPTIONS = ['a subscription type outside the crate (user-defined) follows the same contract']
@@ -37,7 +37,7 @@ CONTROLS_OK = ['K1|<verif_controls::GoodPair<A, B> as Subscription>::is_closed']
 
 
 def check(cx):
-    return k1(cx) + k2(cx) + k3(cx) + k4(cx)
+    return k1(cx) + k2(cx) + k3(cx) + k4(cx) + k5(cx)
 
 
 def _parts(g, names):
@@ -269,3 +269,15 @@ def k4(cx):
     if not cx.control and n < 5:
         res.append(Finding(ID, 'K4', 'floor', False, 'expected 5 slot-based subscriptions, found %d' % n))
     return res
+
+
+def k5(cx):
+    """a task handle that reports closed / has been unsubscribed delivers nothing more: cancellation is atomic with running
+    (same rule as C19.H3)"""
+    from . import c19
+    out = []
+    for f in c19.h3(cx):
+        if cx.control:
+            continue
+        out.append(Finding(ID, 'K5', f.key, f.ok, f.msg, f.loc, f.witness))
+    return out
